@@ -353,6 +353,10 @@ class Gen:
             if src[1][0] == "map" and what == "entries" and r.random() < 0.5:
                 names = [self.fresh("i"), self.fresh("i")]
             body = self.loop_body(depth, names if len(names) == 1 or src[1][0] != "str" else names[:1], in_fn, acc)
+            if r.random() < 0.2:
+                # the loop variable has the name of a variable of the same scope: that one has its value again afterwards
+                pre = [("def", n, I(700 + j)) for j, n in enumerate(names)]
+                return ("seq", pre + [("for", names, what, src, ("seq", body)), LOG("after-loop." + names[0], ("list", [V(n) for n in names]))])
             return ("for", names, what, src, ("seq", body))
         # while with a logged condition and a counter
         cvar = self.fresh("w")
